@@ -204,7 +204,9 @@ Proof.
       [unfold filter_for_certificate in A; apply filter_In in A; exact (proj1 A)|].
     destruct (map snd _) in A.
     - unfold filter_for_certificate in A. apply filter_In in A. exact (proj1 A).
-    - unfold filter_for_prfs in A. apply filter_In in A. destruct A as [A _].
+    - destruct (fix_psk_prf_fallback && _) in A;
+        [unfold filter_for_certificate in A; apply filter_In in A; exact (proj1 A)|].
+      unfold filter_for_prfs in A. apply filter_In in A. destruct A as [A _].
       unfold filter_for_certificate in A. apply filter_In in A. exact (proj1 A). }
   assert (Hs : suite = x).
   { inv_ok H; injection H as <- _; reflexivity. }
